@@ -1,4 +1,5 @@
 import D2V.Model.RangeSpec
+import D2V.Proofs.ReaderInv
 /-!
 C02 — Source positions are exact in UTF-8 and UTF-16 modes.
 
@@ -268,5 +269,79 @@ theorem posOk_counted_iff (cs : List Char) (u16 : Bool) (q : Pos) :
   · exact counted_go_mem cs u16 _ q
   · rintro ⟨k, rfl⟩
     exact prefix_mem_counted_go cs u16 _ k
+
+/-! ### the property sentence on the model, and where the unchanged tree breaks it -/
+
+/-- the C02 range Spec evaluated on what the *model* returns for `Parse`, against the positions of the measured
+    input (`none`: the model crashed) -/
+def modelRangesOk (cfg : Cfg) (isNum : String → Bool) (bs : List UInt8) (u16opt : Bool) : Option Bool :=
+  match parseFile cfg isNum bs u16opt with
+  | .error _ => none
+  | .ok o =>
+    let bom := match bs with | 0xFF :: 0xFE :: _ => true | _ => false
+    let sized : List (Char × Nat) := if bom then (entryRunes bs u16opt).1.map fun r => (r, 0) else decodeRunes bs
+    some (rangesOk (truePositions sized (entryRunes bs u16opt).2) o.ast o.errs)
+
+/-- **the full statement** (kept visible; false on the unchanged tree, see the counterexamples):
+    every range of every node and error of every parse satisfies the Spec -/
+def C02_full_statement : Prop :=
+  ∀ (cfg : Cfg) (isNum : String → Bool) (bs : List UInt8) (u16 : Bool),
+    modelRangesOk cfg isNum bs u16 = some true ∨ modelRangesOk cfg isNum bs u16 = none
+
+/-- the end offset of the root node -/
+def rootStopByte (x : Except Crash Outcome) : Option Int :=
+  match x with
+  | .ok ⟨some (.node _ r _), _⟩ => some r.stop.byte
+  | _ => none
+
+def noNum : String → Bool := fun _ => false
+
+/-- **counterexample (invalid UTF-8)**: the 6-byte input `a\xffb: c` yields a file range ending at byte 8: the
+    invalid byte is read as U+FFFD and counted as `RuneLen(U+FFFD) = 3` -/
+theorem C02_cx_invalid_utf8 :
+    rootStopByte (parseFile ⟨false, false⟩ noNum [97, 255, 98, 58, 32, 99] false) = some 8 ∧
+    modelRangesOk ⟨false, false⟩ noNum [97, 255, 98, 58, 32, 99] false = some false := by
+  decide +kernel
+
+/-- the same input in UTF-16 mode is fine (one unit per replaced byte) -/
+theorem C02_invalid_utf8_u16_ok : modelRangesOk ⟨false, false⟩ noNum [97, 255, 98, 58, 32, 99] true = some true := by
+  decide +kernel
+
+/-- **counterexample (array end)**: `x: [a;b;c;d]⏎` — with `Range.End` taken from `readerPos` the array's range
+    leaves its key's range; taken from `pos` it does not -/
+theorem C02_cx_array_end :
+    modelRangesOk ⟨false, false⟩ noNum [120, 58, 32, 91, 97, 59, 98, 59, 99, 59, 100, 93, 10] false = some false ∧
+    modelRangesOk ⟨false, true⟩ noNum [120, 58, 32, 91, 97, 59, 98, 59, 99, 59, 100, 93, 10] false = some true := by
+  decide +kernel
+
+/-- **counterexample (substitution)**: `x: ${a}` — the unquoted string ends right after `$`, before its own
+    substitution child ends -/
+theorem C02_cx_subst_end : modelRangesOk ⟨false, true⟩ noNum [120, 58, 32, 36, 123, 97, 125] false = some false := by
+  decide +kernel
+
+/-- **counterexample (error range)**: `a: \⏎;` — "missing value after colon" starts at column −1 -/
+theorem C02_cx_missing_value : modelRangesOk ⟨false, true⟩ noNum [97, 58, 32, 92, 10, 59] false = some false := by
+  decide +kernel
+
+/-- non-vacuity: ordinary inputs, multi-byte and astral included, satisfy the Spec in both modes
+    (`é: "😀" -> x`-like text: `é😀: a` as bytes) -/
+example : modelRangesOk ⟨false, true⟩ noNum [195, 169, 240, 159, 152, 128, 58, 32, 97] false = some true ∧
+    modelRangesOk ⟨false, true⟩ noNum [195, 169, 240, 159, 152, 128, 58, 32, 97] true = some true := by
+  decide +kernel
+
+/-- **C02_ranges_ok, partial**: what *is* proved about every range the parser can ever record from its reader
+    state.  After any disciplined run of reader operations on any input, `pos`, `lookaheadPos` and `readerPos`
+    are admissible positions of the Spec (`posOk` against the counted table), hence — `counted_eq_true_*` — real
+    positions of the measured text (always in UTF-16 mode, on valid UTF-8 in UTF-8 mode).  Not proved: that
+    every `Range.Start/End` of the tree is such a reader position at the right moment (sampled by the
+    correspondence stream and evaluated on the implementation by the Spec). -/
+theorem C02_reader_positions_ok_partial {u16 : Bool} {cfg : Cfg} {input : List Char} {fuel : Nat} {ops : List ROp}
+    {s : PState} (r : Run ops (PState.init u16 cfg input fuel) s) (hu : s.u16 = u16) :
+    posOk (countedPositions input u16) s.pos = true ∧ posOk (countedPositions input u16) s.lookaheadPos = true ∧
+    posOk (countedPositions input u16) s.readerPos = true := by
+  obtain ⟨⟨k1, h1⟩, ⟨k2, h2⟩, ⟨k3, h3⟩⟩ := reader_positions_prefix r
+  rw [hu] at h1 h2 h3
+  exact ⟨(posOk_counted_iff _ _ _).mpr ⟨k1, h1⟩, (posOk_counted_iff _ _ _).mpr ⟨k2, h2⟩,
+    (posOk_counted_iff _ _ _).mpr ⟨k3, h3⟩⟩
 
 end D2V.Text
